@@ -124,8 +124,22 @@ def check_export(cont, ren, numbered, res, res2):
         ids = [r[hdr.index("row_id")] for r in rows]
         if numbered and ids != [str(i + 1) for i in range(len(ids))]:
             return ("row-ids", f"{fn}: numbered ids are {ids[:8]}..., expected 1..{len(ids)}")
-        if not numbered and (len(set(ids)) != len(ids) or "" in ids):
-            return ("row-ids", f"{fn}: readable ids not unique/non-empty: {sorted(i for i in ids if ids.count(i) > 1)[:4]}")
+        if not numbered and (len(set(ids)) != len(ids) or "" in ids or "start" in ids):
+            return ("row-ids", f"{fn}: readable ids not unique/non-empty: {sorted(i for i in ids if ids.count(i) > 1 or i in ('', 'start'))[:4]}")
+        # references resolve: every edge origin is "start" or a row id, every go_to target is a row id
+        known = set(ids)
+        from_cols = [i for i, h in enumerate(hdr) if re.fullmatch(r"from|edges\.\d+\.from", h)]
+        tcol, mcol = hdr.index("type") if "type" in hdr else None, hdr.index("message_text") if "message_text" in hdr else None
+        for k, r in enumerate(rows):
+            froms = [x for i in from_cols for x in ([r[i]] if r[i] else [])]
+            bad_from = [x for x in froms if x != "start" and x not in known]
+            if bad_from or not froms:
+                return ("row-ids", f"{fn}: row {k + 1} ({ids[k]}): edge origin {bad_from[:1] or 'missing'} names no row (numbered={numbered})")
+            if tcol is not None and r[tcol] == "go_to":
+                # the target cell is a list of row ids in the cell syntax: one element is written "id|"
+                tg = [x for x in (r[mcol] if mcol is not None else "").split("|") if x]
+                if not tg or any(x not in known for x in tg):
+                    return ("row-ids", f"{fn}: go_to row {k + 1} ({ids[k]}): target {r[mcol] if mcol is not None else None!r} names no row (numbered={numbered})")
     return None
 
 
@@ -182,6 +196,47 @@ def graph_features(fl):
 
 # ------------------------------------------------------------------ correspondence
 from common import enc_str, enc_list, parse_sexp, dec_str  # noqa: E402
+
+
+def rowid_features(fl, irows, rstats):
+    """Distribution of the situations the row-id theorems are about, measured on one loaded flow and
+    the rows the implementation exported for it (readable ids)."""
+    gotos = [(r[2][0][0] if r[2] else None, r[3][0] if r[3] else None) for r in irows if r[1] == "go_to"]
+    by_src, by_tgt, by_pair = {}, {}, {}
+    for s_, t_ in gotos:
+        by_src[s_] = by_src.get(s_, 0) + 1
+        by_tgt[t_] = by_tgt.get(t_, 0) + 1
+        by_pair[(s_, t_)] = by_pair.get((s_, t_), 0) + 1
+    shorts, mains = {}, {}
+    for n in fl.nodes:
+        try:
+            sn = n.short_name()
+        except Exception:
+            continue
+        shorts[sn] = shorts.get(sn, 0) + 1
+        try:
+            mv = n.actions[0].main_value() if n.actions else (n.router.result_name or getattr(n.router, "operand", ""))
+        except Exception:
+            mv = None
+        mains.setdefault(sn, set()).add(mv if isinstance(mv, str) else None)
+    ids = [r[0] for r in irows]
+    rstats["flows"] = rstats.get("flows", 0) + 1
+    rstats["rows"] = rstats.get("rows", 0) + len(irows)
+    rstats["goto_rows"] = rstats.get("goto_rows", 0) + len(gotos)
+
+    def bump(k, c):
+        rstats[k] = rstats.get(k, 0) + (1 if c else 0)
+
+    bump("flows_with_2+_back_edges_from_one_node", any(v > 1 for v in by_src.values()))
+    bump("flows_with_2+_back_edges_same_source_and_target", any(v > 1 for v in by_pair.values()))
+    bump("flows_with_2+_back_edges_into_one_node", any(v > 1 for v in by_tgt.values()))
+    bump("flows_with_3+_goto_rows", len(gotos) >= 3)
+    bump("flows_with_equal_short_names", any(v > 1 for v in shorts.values()))
+    bump("flows_with_truncation_clash_first_15_chars_equal",
+         any(shorts[k] > 1 and len(mains[k]) > 1 and len(k.split(".", 1)[-1]) >= 15 for k in shorts))
+    bump("flows_with_counter_suffix_beyond_1", any(re.search(r"\.(\d+)$", i) and int(re.search(r"\.(\d+)$", i).group(1)) >= 2 for i in ids))
+    bump("flows_with_goto_id_clash", len({i for i in ids if i.startswith("goto.")}) >= 2
+         and any(re.fullmatch(r"goto\..*\.\d+", i) for i in ids))
 
 
 class Unencodable(Exception):
@@ -375,6 +430,17 @@ def correspond(ctx, kind, cont, cstats, leak_expected=None):
             mrows = [model_row(x, names) for x in mo[1]]
             irows = [impl_row(x) for x in ir[1]]
             cstats["rows"] = cstats.get("rows", 0) + len(irows)
+            # the row-id column and the references on their own (what C17_numbered_ids_are_1_to_n /
+            # C17_readable_ids_unique talk about), before the comparison of whole rows
+            mskel = [(r[0], [e[0] for e in r[2]], r[3]) for r in mrows]
+            iskel = [(r[0], [e[0] for e in r[2]], r[3]) for r in irows]
+            cstats["rowid_columns_compared"] = cstats.get("rowid_columns_compared", 0) + 1
+            if mskel != iskel:
+                k = next((i for i in range(min(len(mskel), len(iskel))) if mskel[i] != iskel[i]), min(len(mskel), len(iskel)))
+                ctx.disagree("to_rows: row-id column / references", dict(where, container=cont, first_difference_at_row=k),
+                             repr(mskel[k] if k < len(mskel) else None), repr(iskel[k] if k < len(iskel) else None))
+            if not nb:
+                rowid_features(fl, irows, ctx.stats.setdefault("rowid_features_of_compared_flows", {}))
             if mrows != irows:
                 k = next((i for i in range(min(len(mrows), len(irows))) if mrows[i] != irows[i]), min(len(mrows), len(irows)))
                 ctx.disagree("to_rows", dict(where, container=cont, first_difference_at_row=k),
@@ -499,9 +565,11 @@ def run(ctx):
     v.coverage["rule"] = (
         "every container (fixture tests/output/all_test_flows.json + generated: basic/multi-action nodes, switch/wait/"
         "group/random routers, enter_flow/webhook/airtime nodes, arbitrary destinations incl. joins, cycles, self-loops, "
+        "shape 'loops': several back edges from one node / into one node and texts whose mangled names clash, "
         "dead ends, shared exits, categories without case, default with case; ~15% malformed, ~4% corner) is exported "
         "with strip_uuids under >= 2 renamings (fresh/permute/reverse/upper) x numbered in {False,True}; an evaluation = "
-        "one (container, renaming, numbered) byte comparison incl. uuid scan and row-id check, or one hash-seed "
+        "one (container, renaming, numbered) byte comparison incl. uuid scan and row-id check (numbered 1..n, readable "
+        "unique, every from / go_to target cell names a row), or one hash-seed "
         "re-export; non-trivial = distinct stripped sheet text with >= 3 rows")
     v.coverage["samples"] = [dict(kind=k, flows=[f["name"] for f in c["flows"]], nodes=[len(f["nodes"]) for f in c["flows"]])
                              for k, c in (conts[0], conts[1], conts[len(conts) // 2], conts[-1])]
